@@ -107,6 +107,9 @@ pub fn run_seq<V: Clone + Debug + Hash + Eq + Send + Sync + 'static>(
             return;
         }
     }
+    let case_timeout_s = ctx.case_timeout_s;
+    let property = ctx.property.clone();
+    let tier_s = if ctx.tier == crate::core::Tier::Quick { "quick" } else { "thorough" };
     let run = |threads: usize| {
         let violations = Arc::new(Mutex::new(Vec::new()));
         let transitions = Arc::new(std::sync::atomic::AtomicU64::new(0));
@@ -121,7 +124,22 @@ pub fn run_seq<V: Clone + Debug + Hash + Eq + Send + Sync + 'static>(
             transitions: transitions.clone(),
         };
         let t0 = Instant::now();
-        let checker = m.checker().threads(threads).spawn_bfs().join();
+        // poll instead of a blind join: a transition that never returns (a library routine looping on
+        // some state) shows up as "no new state generated for case_timeout seconds" and is reported as a
+        // violation of the model (the stuck thread cannot be unwound)
+        let checker = m.checker().threads(threads).spawn_bfs();
+        let (mut last_count, mut last_change) = (0usize, Instant::now());
+        while !checker.is_done() {
+            std::thread::sleep(std::time::Duration::from_millis(100));
+            let c = checker.state_count();
+            if c != last_count {
+                last_count = c;
+                last_change = Instant::now();
+            } else if last_change.elapsed().as_secs() > case_timeout_s {
+                crate::core::report_hang(&property, tier_s, name, 0, case_timeout_s);
+            }
+        }
+        let checker = checker.join();
         let unique = checker.unique_state_count() as u64;
         let done = checker.is_done();
         let tr = transitions.load(std::sync::atomic::Ordering::Relaxed);
